@@ -568,7 +568,7 @@ def text_part(ctx, fl, verdict, stats):
         replay = {"kind": "text", "case": case, "n": n, "float_ranges": not any(isinstance(iv.minimum, np.floating) for iv in ivs), "engine": fl.FllExporter().to_string(before), "v": v, "scope": "all" if is_all else "each", "separator": sep,
                   "headers": hdr, "inputs": xi, "outputs": xo, "decimals": d, "active": flags, "last_values": last_values}
         kind_of = "numpy.float64" if any(isinstance(iv.minimum, np.floating) for iv in ivs) else "Python float"
-        what = f"case {case}: engine {engine.name} ({n} inputs with {kind_of} ranges {[(float(iv.minimum), float(iv.maximum)) for iv in ivs]}, {len(ovs)} outputs), {'all' if is_all else 'each'} variables = {v}, sep {sep!r}, decimals {d}, headers/inputs/outputs {hdr}/{xi}/{xo}, active {flags}"
+        what = f"case {case}: engine {engine.name} ({n} inputs with {kind_of} ranges {[(float(iv.minimum), float(iv.maximum)) for iv in ivs]}, {len(ovs)} outputs, enabled {[bool(ov.enabled) for ov in ovs]}), {'all' if is_all else 'each'} variables = {v}, sep {sep!r}, decimals {d}, headers/inputs/outputs {hdr}/{xi}/{xo}, active {flags}"
 
         def do_export():
             with np.errstate(all="ignore"), fl.settings.context(decimals=d):
